@@ -74,7 +74,8 @@ func fuzzBody(k int, rng func(string) uint64, addr string) (string, string) {
 	case 10:
 		return `{"Address":"10.0.0.9","UUID":"u","RevCount":"7","RepType":"Backend","UpTime":1,"RepState":"closed"}`, "register-input"
 	case 11:
-		return `{"rebuilding":true,"mode":"RW","counter":"9","snapshotName":"volume-snap-fz.img","Action":"start","snapname":"fz","revisioncounter":"3"}`, "mixed-valid"
+		// (every action finds its fields here, all under the same names)
+		return `{"name":"fz","created":"2020-01-01T00:00:00Z","usercreated":true,"rebuilding":true,"mode":"RW","counter":"9","snapshotName":"volume-snap-fz.img","Action":"start","snapname":"fz","revisioncounter":"3"}`, "mixed-valid"
 	case 12:
 		return "\x00\xff\xfe garbage \x01", "binary"
 	default:
@@ -98,6 +99,22 @@ func (apifuzz) Generate(rng *Rand, prop, tier string) *Script {
 				op.A, op.B = 1, 8 // POST /v1/replicas/1?action=...
 			}
 			s.Ops = append(s.Ops, op)
+			if rng.Bool(25) {
+				// the same body (same names) sent to another action straight afterwards: state that one
+				// action leaves behind under a name meets the next action using that name
+				op2 := op
+				op2.A, op2.B = 1, 8
+				op2.C = int64(rng.Intn(len(repActions)))
+				if rng.Bool(50) {
+					// ... with the body in which every action finds its fields
+					s.Ops[len(s.Ops)-1].D, op2.D = 11, 11
+					s.Ops[len(s.Ops)-1].A, s.Ops[len(s.Ops)-1].B = 1, 8
+					if s.Ops[len(s.Ops)-1].C >= int64(len(repActions)) {
+						s.Ops[len(s.Ops)-1].C = int64(rng.Intn(len(repActions)))
+					}
+				}
+				s.Ops = append(s.Ops, op2)
+			}
 			if rng.Bool(12) { // the same request many times in a row (queues, counters, channels fill up)
 				for k, m := 0, rng.Range(5, 9); k < m; k++ {
 					s.Ops = append(s.Ops, op)
